@@ -18,7 +18,8 @@ import reftext
 PID = 'C15'
 FAM = {s.sid: s for s in S.family_F()}
 USE = ['F01', 'F03', 'F05', 'F07', 'F09', 'F13', 'F15', 'F11']
-FORMS = [b'#c\n', b'#\n', b'//c\n', b'//\n', b'/*c*/', b'/**/', b'/***/', b'/* a\n b */', b'###x\n', b'\n', b'\t', b'# a b \n', b'/** d **/', b'// /* e\n', b'# x*/y\n']
+FORMS = [b'#c\n', b'#\n', b'//c\n', b'//\n', b'/*c*/', b'/**/', b'/***/', b'/* a\n b */', b'###x\n', b'\n', b'\t', b'# a b \n', b'/** d **/', b'// /* e\n', b'# x*/y\n',
+         b'# c\r\n', b'/*\r\n c\r\n*/', b'#\x0c c \x0b\n']      # CR, FF and VT are white space: trimmed like blanks
 CM = CFGF['COMMENTS']
 BATCH = 300
 
@@ -203,7 +204,7 @@ def main():
         engine.phase(ck, 'E1 N=%d x %d insertion(s) x annotations off/on' % (N, nins), shard, shards, schemas=len(USE), forms=len(FORMS))
     for N, nins in plan[:-1]:
         run_plan(N, nins)
-    DEEPFORMS = [b'/* a\n b */', b'#c\n', b'/*c*/', b'\n']
+    DEEPFORMS = [b'/* a\n b */', b'#c\n', b'/*c*/', b'\n', b'# c\r\n']
     Nd = 7 if quick else 9
     shards = []
     for sid in ('F05', 'F07', 'F11', 'F16'):
